@@ -39,9 +39,47 @@ def form_of(shape, D):
     raise TraceError(f"transform has shape {tuple(shape)}")
 
 
+def check_rounded_size(Grid, Axes):
+    """Grid stores sizes as floats (so that downsample().upsample() is lossless); the number of samples is the
+    rounded size (size_tensor() = ceil).  Every coordinate map must use the number of samples: trace the maps of a
+    grid whose stored size is a non-integer symbol nf_i with ceil(nf_i) = n_i and require that nf_i does not occur."""
+    import math
+    orig = st.Tensor.ceil
+
+    def ceil2(self):
+        def f(x):
+            if x.op == "var" and str(x.args[0]).startswith("nf"):
+                return E.var("n" + str(x.args[0])[2:], integer=True, positive=True)
+            if x.flags().get("integer"):
+                return x
+            if x.is_const():
+                return E.const(math.ceil(x.value()))
+            raise TraceError("ceil() of non-integer symbolic value")
+        return self._new(st._un(f)(self.a))
+    st.Tensor.ceil = ceil2
+    try:
+        for D in (2, 3):
+            for align in (True, False):
+                g = mk_grid(Grid, D, align=align)
+                g._size = st.Tensor(np.array([E.var(f"nf{i}", positive=True) for i in range(D)], dtype=object))
+                what = [("origin()", g.origin())]
+                for a, b in itertools.product(AXN, AXN):
+                    for vec in (False, True):
+                        what.append((f"transform({a}, {b}, vectors={vec})", g.transform(Axes(a.lower()), Axes(b.lower()), vectors=vec)))
+                    v = st.symvec("v", D)
+                    what.append((f"transform_vectors({a}, {b})", g.transform_vectors(v, Axes(a.lower()), Axes(b.lower()))))
+                for name, t in what:
+                    if any("nf" in st.to_text(e) for e in t.a.reshape(-1)):
+                        raise TraceError(f"Grid.{name} (D={D}, align_corners={align}) depends on the unrounded stored size _size "
+                                         "instead of the number of samples size_tensor()")
+    finally:
+        st.Tensor.ceil = orig
+
+
 def generate(loader):
     G = loader.load("deepali.core.grid")
     Grid, Axes = G.Grid, G.Axes
+    check_rounded_size(Grid, Axes)
     out = ["Section Gen.", "Context {K : fld}.", ""]
     forms = {}
     for D in (2, 3):
@@ -122,6 +160,26 @@ def generate(loader):
                 m = cu.transform(Axes(a.lower()), Axes(b.lower()), vectors=vec)
                 out.append(trlib.emit_match_def(f"gen_cubeT{'v' if vec else ''}_{SH[a]}{SH[b]}_{D}", ci, [], m,
                                                 comment=f"Cube.transform({a}, {b}, vectors={vec})"))
+        # two cubes: with to_cube given, every axes pair is "this cube -> world -> other cube" (structural check on traces)
+        co = object.__new__(Cm.Cube)
+        co._extent = st.symvec("te", D, positive=True)
+        co._center = st.symvec("tc", D)
+        co._direction = st.symmat("td", D, D)
+        xx = st.symvec("x", D)
+        hom = loader.load("deepali.core.linalg").homogeneous_transform
+        eq_orig = Cm.Cube.__eq__
+        Cm.Cube.__eq__ = lambda a_, b_: a_ is b_   # the two cubes are generic, hence different (allclose is numeric)
+        try:
+            for a, b in itertools.product(("CUBE", "WORLD"), repeat=2):
+                for vec in (False, True):
+                    m = cu.transform(Axes(a.lower()), Axes(b.lower()), to_cube=co, vectors=vec)
+                    # (syntactic comparison is too weak here: the composite is a matrix product; emitted and proved equal
+                    #  to "this cube -> world -> other cube" in Proofs/C01Cube.v)
+                    out.append(trlib.emit_match_def(f"gen_cube2T{'v' if vec else ''}_{SH[a]}{SH[b]}_{D}",
+                                                    ci + [("te", co._extent), ("tc", co._center), ("td", co._direction)], [], m,
+                                                    comment=f"Cube.transform({a}, {b}, to_cube=other, vectors={vec})"))
+        finally:
+            Cm.Cube.__eq__ = eq_orig
     # dispatchers
     def disp(name, pre, extra_args, extra_call, rty="list (list K)", two=False):
         arms = []
